@@ -124,8 +124,8 @@ func buildHistCalls(filesDir string) ([]histCall, [][]byte) {
 			encs[i].o = withDefaults(encs[i].o)
 		}
 	}
-	files := make([][]byte, len(encs)+2)
-	calls := make([]histCall, 31)
+	files := make([][]byte, len(encs)+3)
+	calls := make([]histCall, 33)
 	for i, e := range encs {
 		i, e := i, e
 		if filesDir == "" {
@@ -253,8 +253,19 @@ func buildHistCalls(filesDir string) ([]histCall, [][]byte) {
 			vx.Fatal2("C11: assembling the raw-ALPH animation: %v", err)
 		}
 		files[nEnc+1] = ab.Bytes()
+		var lb bytes.Buffer
+		le := animation.NewEncoder(&lb, 24, 20, &animation.EncodeOptions{Lossless: true, Quality: 60, Kmax: 4})
+		fr0 := noiseNRGBA(rng, 24, 20, 2)
+		for k := 0; k < 3; k++ {
+			le.AddFrame(fr0, 20*time.Millisecond)
+			fr0 = editPicture(rng, fr0, 2)
+		}
+		if err := le.Close(); err != nil {
+			vx.Fatal2("C11: building the lossless animation: %v", err)
+		}
+		files[nEnc+2] = lb.Bytes()
 	} else {
-		for k := 0; k < 2; k++ {
+		for k := 0; k < 3; k++ {
 			b, err := os.ReadFile(fmt.Sprintf("%s/file%d.webp", filesDir, nEnc+k))
 			if err != nil {
 				vx.Fatal2("child: %v", err)
@@ -263,6 +274,69 @@ func buildHistCalls(filesDir string) ([]histCall, [][]byte) {
 		}
 	}
 	dec(29, "Decode(still with raw filtered ALPH)", files[nEnc], "lossy.Decoder")
+	// a valid foreign lossless stream whose palette (17..255 colours) is smaller than the largest index used: the
+	// format defines those pixels as transparent black, whatever an earlier decode left in the pooled buffers
+	{
+		grng := rand.New(rand.NewSource(424242))
+		var chosen []byte
+		desc := ""
+		for try := 0; try < 4000 && chosen == nil; try++ {
+			g := genVP8LWH(grng, 40, 30)
+			if strings.Contains(g.Desc, " pal") && g.W*g.H >= 600 {
+				var nc int
+				for _, f := range strings.Fields(g.Desc) {
+					if strings.HasPrefix(f, "pal") {
+						fmt.Sscanf(f, "pal%d", &nc)
+					}
+				}
+				fl := strings.Fields(g.Desc)
+				onlyPalette := len(fl) > 2 && strings.HasPrefix(fl[1], "pal") && strings.HasPrefix(fl[2], "cache") // no other transform: the palette writes into the pooled buffer
+				if nc >= 17 && nc <= 200 && onlyPalette {
+					// index values are random bytes, so with 17 or 40 colours nearly every pixel lies beyond the palette
+					chosen, desc = wrapVP8L(g.Bytes), g.Desc
+				}
+			}
+		}
+		if chosen == nil {
+			vx.Fatal2("C11: no generated stream with a 17..200-colour palette")
+		}
+		dec(31, "Decode(generated VP8L "+desc+")", chosen, "lossless.Decoder")
+	}
+	// an AnimDecoder played to the end, Reset and replayed: the images handed out before the Reset must stay intact
+	calls[32] = histCall{"AnimDecoder: play, Reset, replay (lossless 3-frame animation)", "", func() (string, any) {
+		a, err := animation.DecodeBytes(files[nEnc+2])
+		if err != nil {
+			return "error: " + err.Error(), nil
+		}
+		if err := a.DecodeFrames(); err != nil {
+			return "error: " + err.Error(), nil
+		}
+		d, err := animation.NewAnimDecoder(a)
+		if err != nil {
+			return "error: " + err.Error(), nil
+		}
+		var kept []*image.NRGBA
+		var hashes []uint64
+		s := ""
+		for pass := 0; pass < 2; pass++ {
+			for d.HasNext() {
+				fr, _, err := d.NextFrame()
+				if err != nil {
+					return "error: " + err.Error(), nil
+				}
+				kept = append(kept, fr)
+				hashes = append(hashes, hashNRGBA(fr))
+				s += fmt.Sprintf("%x:", hashNRGBA(fr))
+			}
+			d.Reset()
+		}
+		for i, k := range kept {
+			if hashNRGBA(k) != hashes[i] {
+				s += fmt.Sprintf("IMAGE-%d-MODIFIED-AFTER-IT-WAS-RETURNED:", i)
+			}
+		}
+		return s, nil
+	}}
 	animBytes := files[nEnc+1]
 	animOrig := hashBytes(animBytes)
 	calls[28] = histCall{"animation.DecodeBytes+DecodeFrames(raw filtered ALPH frames)", "", func() (string, any) {
@@ -362,7 +436,7 @@ func runChild(hist []int) []string {
 func checkC11(args []string) {
 	run := vx.NewRun("C11", "model_checking", args)
 	activeRun = run
-	run.Rule = "TLC enumerates all call histories up to MAXLEN over the 31-call alphabet of spec/Pool.tla (lossy/lossless encodes and decodes with equal and different macroblock grids, parallel and serial paths, partitions/segments/SNS/dither/alpha options, decodes that fail mid-picture, animation, mux) together with the predicted pool reuse; every history is executed in one process with empty pools at its start and GC off; each result is compared with the same call made FIRST in a fresh process; all previously returned images/byte slices are re-hashed after every later call. distinct = distinct histories in which the model predicts (and the hook counters confirm) at least one reuse"
+	run.Rule = "TLC enumerates all call histories up to MAXLEN over the 33-call alphabet of spec/Pool.tla (lossy/lossless encodes and decodes with equal and different macroblock grids, parallel and serial paths, partitions/segments/SNS/dither/alpha options, decodes that fail mid-picture, animation, mux) together with the predicted pool reuse; every history is executed in one process with empty pools at its start and GC off; each result is compared with the same call made FIRST in a fresh process; all previously returned images/byte slices are re-hashed after every later call. distinct = distinct histories in which the model predicts (and the hook counters confirm) at least one reuse"
 	run.Assumptions = []string{"a fresh child process executing the call first defines Fresh(args)", "sync.Pool may drop objects: a predicted reuse that did not happen is reported as not covered, never as a violation", "GOMAXPROCS fixed to 8"}
 	runtime.GOMAXPROCS(8)
 	calls, files := buildHistCalls("")
@@ -427,6 +501,9 @@ func checkC11(args []string) {
 				} else {
 					missed++
 				}
+			}
+			if strings.Contains(d, "MODIFIED") {
+				run.Violate(fmt.Sprintf("returned-value-modified|%s", calls[id].name), fmt.Sprintf("history %v: %s reports %q", c.Hist[:k+1], calls[id].name, d), c.Hist[:k+1])
 			}
 			if d != fresh[id] {
 				// confirm from a fresh process running exactly this history
